@@ -184,10 +184,13 @@ fn get_factor(
             // Datos desde línea de comandos
             let vv: Vec<f32> = v
                 .map(|vv| {
-                    f32::from_str(vv.trim()).unwrap_or_else(|_| {
-                        eprintln!("ERROR: factor de paso incorrecto: \"{}\"", vv);
-                        exit(exitcode::DATAERR);
-                    })
+                    f32::from_str(vv.trim())
+                        .ok()
+                        .filter(|f| !f.is_nan())
+                        .unwrap_or_else(|| {
+                            eprintln!("ERROR: factor de paso incorrecto: \"{}\"", vv);
+                            exit(exitcode::DATAERR);
+                        })
                 })
                 .collect();
             RenNrenCo2 {
